@@ -763,6 +763,14 @@ class VHDXInspector(FileInspector):
                 # for the maximum length of the table, which is one 32-byte
                 # table header, plus up to 2047 32-byte entries.
                 meta_len = 2048 * 32
+                header = self.region('header')
+                if meta_offset < header.offset + header.length:
+                    # We stream, so we can not go back to data that has
+                    # already passed by (and that the header structures
+                    # occupy anyway).
+                    raise ImageFormatError(
+                        'Metadata region offset %x overlaps the header' % (
+                            meta_offset))
                 return CaptureRegion(meta_offset, meta_len)
 
         self._trace('Did not find metadata region')
@@ -803,6 +811,11 @@ class VHDXInspector(FileInspector):
                     meta_buffer[entry_offset + 16:entry_offset + 28])
                 item_length = min(item_length,
                                   self.VHDX_METADATA_TABLE_MAX_SIZE)
+                if item_offset < entries_size:
+                    # Items live after the metadata table, never inside it
+                    raise ImageFormatError(
+                        'Metadata item offset %x overlaps the table' % (
+                            item_offset))
                 self.region('metadata').length = len(meta_buffer)
                 self._trace('Found entry at offset %x', item_offset)
                 # Metadata item offset is from the beginning of the metadata
